@@ -38,7 +38,7 @@ func c18HostileValues(s string, other keys.Address) []string {
 	case strings.HasPrefix(s, "\"0lt") || strings.HasPrefix(s, "\"0x"):
 		out = append(out, `""`, `"0lt"`, `"0ltzz"`, `"0lt00"`, `"0lt`+strings.Repeat("ab", 60)+`"`, `"`+other.String()+`"`, `null`, `"0x0000000000000000000000000000000000000000"`, `123`)
 	case strings.HasPrefix(s, "{") && strings.Contains(s, "\"value\""):
-		for _, cur := range []string{"OLT", "XYZ", "", "ETH"} {
+		for _, cur := range []string{"OLT", "XYZ", "", "ETH", "olt", "Olt", " OLT", "OLT\u0000"} {
 			for _, v := range c18AmountValues {
 				if cur == "OLT" && (v == "1") {
 					continue
@@ -134,6 +134,12 @@ func c18Generate(seed int64) []c18Input {
 		envS("fee.price.currency=XYZ", func(raw *action.RawTx) { raw.Fee.Price.Currency = "XYZ" })
 		envS("fee.price.currency=ETH", func(raw *action.RawTx) { raw.Fee.Price.Currency = "ETH" })
 		envS("fee.price.currency=empty", func(raw *action.RawTx) { raw.Fee.Price.Currency = "" })
+		// near misses of the registered fee currency name (case, padding, control characters):
+		// what a validation that normalises names would let through to an exact-name lookup
+		for _, nm := range []string{"olt", "Olt", "oLT", " OLT", "OLT ", "OLT\x00", "ＯＬＴ"} {
+			nm := nm
+			envS("fee.price.currency~"+nm, func(raw *action.RawTx) { raw.Fee.Price.Currency = nm })
+		}
 		envS("type=unknown", func(raw *action.RawTx) { raw.Type = action.Type(0x7fff) })
 		envS("type=negative", func(raw *action.RawTx) { raw.Type = action.Type(-5) })
 		envS("memo=long", func(raw *action.RawTx) { raw.Memo = strings.Repeat("m", 20000) })
